@@ -5,6 +5,7 @@ import (
 	"encoding/json"
 	"errors"
 	"fmt"
+	"strings"
 	"sync"
 
 	"github.com/elementsproject/peerswap/log"
@@ -963,8 +964,10 @@ func (s *SwapService) lockSwap(swapId, channelId string, fsm *SwapStateMachine) 
 	defer s.Unlock()
 
 	// Check if we already have an active swap on the same channel
+	// (compare in bolt format: the same channel may be written 1x2x3 or 1:2:3)
+	boltChannelId := strings.ReplaceAll(channelId, ":", "x")
 	for id, swap := range s.activeSwaps {
-		if swap.Data.GetScid() == channelId {
+		if swap.Data.GetScidInBoltFormat() == boltChannelId {
 			return ActiveSwapError{channelId: channelId, swapId: id}
 		}
 	}
